@@ -106,6 +106,10 @@ package dns
 //@   assert at "r := &generateReader{" range: 0 <= start && start <= end && step > 0 && (end - start) / step <= 65535
 // the parser of the generated text works under the includer's limits: same file system, same include permission and
 // depth, and the TTL state in force (so an omitted TTL in the template takes $TTL, else the last stated TTL)
+// one record per step: the template is a single line (a quoted token of the directive may span lines; such a token
+// would make every step yield several records)
+//@   assert at "r := &generateReader{" oneline: forall k in 0..len(s) :: s[k] != 10 [C06 C07]
+//@   loop 1 invariant oneline: forall k in 0..len(s) :: s[k] != 10 [C06 C07]
 //@   assert at "return zp.subNext()" genfs: zp.sub.fsys == zp.fsys [C07]
 //@   assert at "return zp.subNext()" geninc: zp.sub.includeAllowed == zp.includeAllowed && zp.sub.includeDepth == zp.includeDepth [C07]
 //@   assert at "return zp.subNext()" gennest: zp.sub.generateDisallowed [C07]
